@@ -145,4 +145,33 @@ example : H2 (.bin .add (.ifexp tC tA tB) tA) = true ∧
     parseE 30 (printE (.bin .add (.ifexp tC tA tB) tA)) = some (.bin .add (.paren (.ifexp tC tA tB)) tA) := by decide
 example : H2 f23Witness = false ∧ H2 (.bin .pow tA (.negnum 0)) = true := by decide
 
+/-! ## 4. the writer state machine (dense and readable), for every column span -/
+
+/-- For every starting state (any `column_span`, 0 and 1 included, any indentation and
+`can_add_new_line` stack) and every sequence of operations other than `merge_char`: each
+operation appends `separator ++ content` to the output, the separator consists of spaces and
+newlines only (so separators sit only BETWEEN contents), and it is non-empty whenever the
+operation's break criterion holds — `should_break_with_space (last written char) (first char)`
+for `push_str` / `push_char` / `push_space_if_needed`, the `break_*` predicate of the call site
+for `push_*_and_break_if`. -/
+theorem writer_separates (w : W) (ops : List Op) (h : ∀ op ∈ ops, op.isMerge = false) :
+    Separated w ops :=
+  run_separated w ops h
+
+/-- `merge_char` included: the output with spaces and newlines erased is exactly the
+concatenation of the contents with spaces and newlines erased — the writers (line breaking,
+`merge_char`'s re-breaking of the last push) never lose, duplicate, reorder or invent a
+non-blank character, whatever the column span. -/
+theorem writer_content (w : W) (ops : List Op) :
+    eraseWs (run w ops).output = eraseWs w.output ++ eraseWs (ops.flatMap content) :=
+  run_erase w ops
+
+-- non-vacuity: `- -x`, `1 ..`, spans 0 and 1, merge_char re-breaking
+example : (run (W.init 80) [.pushChar 45, .pushCharAndBreakIf 45, .pushStr [120]]).output = [45, 32, 45, 120] := by decide
+example : mustBreak (run (W.init 80) [.pushChar 45]) (.pushChar 45) = true := by decide
+example : (run (W.init 0) [.pushStr [97], .pushStr [98]]).output = [10, 97, 10, 98] := by decide
+example : (run (W.init 1) [.pushStr [97], .pushStr [98], .mergeChar 40]).output = [97, 10, 10, 98, 40] := by decide
+example : (run (W.init 4) [.pushStr [97], .pushStr [98, 98], .mergeChar 40]).output = [97, 10, 98, 98, 40] := by decide  -- `a bb` re-broken as `a⏎bb(`
+example : (run (W.init 80) [.pushStr [49], .pushStrAndBreakIf [46, 46], .pushStr [120]]).output = [49, 32, 46, 46, 120] := by decide
+
 end DarkluaModel.C02
